@@ -447,5 +447,10 @@ def run(ctx):
     ctx.guard("blake2-param", "engines", lambda: check_blake2_params(ctx, P))
     hashctx.check_all_blake2_keyed(ctx, P, which=("new_keyed",))
     ctx.guard("rotations", "reference", lambda: check_rotations(ctx, P))
-    ctx.trusted.append("definition-derived oracle cxsa/spec/hashes.py; ssa evaluator and bit provenance")
+    from . import simdeq
+    progs = {k: ctx.prog(k) for k in ("K4", "K5")}
+    got = []
+    ctx.guard("lane-eq", "blake2-simd", lambda: got.append(simdeq.check_blake2_simd(ctx, progs)))
+    ctx.check(got == [6], "floor", "lane-eq", "3 SIMD BLAKE2 compression functions x {final, non-final} compared with RFC 7693 F", "only %s SIMD BLAKE2 comparisons ran" % got, key="floor:lane-eq")
+    ctx.trusted.append("definition-derived oracle cxsa/spec/hashes.py; ssa evaluator and bit provenance; value-graph evaluator cxsa/simd.py (x86 intrinsic semantics)")
     ctx.not_decided += ["compression functions and permutations as numerical functions (round structure, message schedule, G mixing)", "SIMD paths (C16)"]
